@@ -350,6 +350,9 @@ func successGuarded(c *core.Ctx, fn *ssa.Function, m core.EdgeMatcher, depth int
 			}
 			continue
 		}
+		if returnsTestedError(fn, ret) {
+			continue // `if err != nil { return nil, err }`: a failure handed on, not a forwarded outcome
+		}
 		call := forwardedCall(ret)
 		if call == nil || depth > 2 {
 			continue
